@@ -8,7 +8,9 @@ A history is a hypothesis list of JSON ops: rewrite ebuild (new variant / inheri
 (create, overwrite, shadow in the other repo), touch / remove eclass, move eclass between the two repos, strip the INHERIT
 line from the cache entry, no-op. Every op carries a read plan: an ordered subset of the 2-3 packages that is read right
 after it through ONE fresh repo object graph (a "session"; real bash daemon for every regeneration), so packages that were
-not read keep stale entries and entries recording old and new eclass states coexist inside later sessions. Two scripted
+not read keep stale entries and entries recording old and new eclass states coexist inside later sessions. One session in
+four opens the cache read-only: the validity verdict and the returned metadata must be the same, only the replacement of the
+stale entry is not demanded (and nothing may be written). Two scripted
 deterministic histories (one per cache kind, every op kind, both read orders) run before the generated ones.
 
 Oracle (model kept side by side, nothing of pkgcore's cache code is consulted):
@@ -155,7 +157,10 @@ def _op():
         pkg.map(lambda p: {"op": "strip_inherit", "pkg": p}),
         st.just({"op": "noop"}), st.just({"op": "noop"}),
     )
-    return st.builds(lambda o, r: dict(o, reads=r), base, _reads())
+    # one session in four opens the cache read-only (pkgcore does that for users who cannot write to it): validity must be
+    # judged the same way, only the replacement of the stale entry cannot happen
+    ro = st.sampled_from([False, False, False, True])
+    return st.builds(lambda o, r, x: dict(o, reads=r, ro=x), base, _reads(), ro)
 
 
 @st.composite
@@ -412,9 +417,9 @@ class World:
         raise core.HarnessError(f"unknown op {op!r}")
 
     # ---- system under test
-    def session(self):
+    def session(self, readonly=False):
         """one fresh repo object graph with the world's cache: what one pkgcore process works with"""
-        return ER.open_repo(self.o, self.m, cache=self.kind, flat_location=self.flat)
+        return ER.open_repo(self.o, self.m, cache=self.kind, flat_location=self.flat, readonly=readonly)
 
     def _fetch(self, p, cache, repo=None):
         from pkgcore.package.errors import MetadataException
@@ -486,7 +491,7 @@ def relation(world, p):
     return "unrelated"
 
 
-def check_read(ctx, world, spec, step, op, p, repo, pos):
+def check_read(ctx, world, spec, step, op, p, repo, pos, ro=False):
     """one oracle evaluation: package `p` read as the `pos`-th read of the session `repo` after step `step`.
     Returns False when a violation was recorded (the caller resets the cache: model and disk may have diverged)."""
     reasons = world.staleness(p)
@@ -500,9 +505,15 @@ def check_read(ctx, world, spec, step, op, p, repo, pos):
                f"ops-since-last-read:{min(len(world.since[p]['ops']), 4)}"]
     if rel != "nothing":
         classes.append(f"{verdict}:{pending[-1] if pending else opk}:{rel}")
+    if ro:
+        classes.append("readonly_cache_session")
+        classes.append(f"readonly:{verdict}:{primary}")
+        if "no-INHERIT" in reasons:
+            classes.append("inherit_stripped_then_readonly_read")
     nontrivial = had_entry and rel in ("own-ebuild", "own-entry", "eclass-in-closure")
-    key = core.jdump([world.kind, world.closure_signature(p), pending, rel, reasons, min(pos, 1)])
-    sample = {"kind": world.kind, "step": step, "op": op, "pkg": p, "session_position": pos, "model": verdict,
+    key = core.jdump([world.kind, world.closure_signature(p), pending, rel, reasons, min(pos, 1), bool(ro)])
+    sample = {"kind": world.kind, "step": step, "op": op, "pkg": p, "session_position": pos, "readonly_session": bool(ro),
+              "model": verdict,
               "reasons": reasons, "ops_since_last_read": world.since[p]["ops"], "closure": world.closure_signature(p)}
     ctx.case(sample, nontrivial=nontrivial, classes=classes, key=key)
     case = dict(spec, ops=spec["ops"][:step])     # the history up to and including this step reproduces the read
@@ -527,7 +538,7 @@ def check_read(ctx, world, spec, step, op, p, repo, pos):
     if exp == FAIL and not had_entry and got == FAIL:
         world.failed_reads.add(sig)
 
-    where = "first-in-session" if pos == 0 else "later-in-session"
+    where = ("first-in-session" if pos == 0 else "later-in-session") + (":readonly-cache" if ro else "")
     if regens and not reasons:
         bad(f"regenerated-valid-entry:{world.kind}:{rel}", "entry is valid by the model but metadata was regenerated")
     if not regens and reasons:
@@ -545,7 +556,12 @@ def check_read(ctx, world, spec, step, op, p, repo, pos):
             f"(cached-repo value, cache-less value) per key: {diff}")
 
     # ---- model update + replacement check
-    if reasons:
+    if reasons and ro:
+        # a read-only cache cannot be updated: validity is judged the same way and the fresh metadata must be returned,
+        # but the stale entry stays where it is (model: unchanged), and nothing may have been written
+        if ok and had_entry is False and world.disk_entry(p) is not None:
+            bad(f"readonly-cache-written:{world.kind}", "a cache entry appeared although the cache was opened read-only")
+    elif reasons:
         if exp == FAIL:
             world.entry[p] = None
             try:
@@ -609,12 +625,13 @@ def run_history(ctx, spec):
     world = World(ctx, spec)
     try:
         def session(step, op, reads):
-            repo = world.session()
+            ro = bool(op and op.get("ro"))
+            repo = world.session(ro)
             for pos, p in enumerate(reads):
-                if not check_read(ctx, world, spec, step, op, p, repo, pos):
+                if not check_read(ctx, world, spec, step, op, p, repo, pos, ro):
                     ctx.count("cache_resets_after_violation")
                     world.reset_cache()
-                    repo = world.session()
+                    repo = world.session(ro)
 
         session(0, None, sorted(world.ebuilds))        # populate
         for i, op in enumerate(spec["ops"], 1):
@@ -654,8 +671,10 @@ def scripted_history(kind):
         {"op": "touch_eclass", "name": "a", "repo": "m", "reads": ["p2"]},
         {"op": "noop", "reads": ["p2", "p1"]},
         {"op": "mv_eclass", "name": "c", "src": "o", "reads": ["p2"]},               # same text lands in the master
-        ecl("c", "o", 2, reads=["p3", "p2"]),                                         # shadow with different text
-        {"op": "strip_inherit", "pkg": "p1", "reads": ["p3", "p1"]},
+        dict(ecl("c", "o", 2, reads=["p3", "p2"]), ro=True),                          # shadow with different text, ro session
+        {"op": "noop", "reads": ["p2"]},
+        {"op": "strip_inherit", "pkg": "p1", "reads": ["p3", "p1"], "ro": True},      # old-format entry, read-only cache
+        {"op": "noop", "reads": ["p1"]},                                              # ... then refreshed by a writable one
         {"op": "touch_ebuild", "pkg": "p3", "reads": ["p3"]},
         {"op": "ebuild", "pkg": "p1", "v": 2, "inh": ["a"], "reads": ["p2"]},
         {"op": "noop", "reads": ["p2", "p1", "p3"]},
